@@ -63,6 +63,12 @@ CLAIMED.update({
         note="Trusted: z3, symx, the expected-field table of checks/c03.py. Float arguments are exact reals on the wire grid (binary rounding of the hex_from_* helpers is C04's). 42 argument regions in which the constructors accept what the decoder rejects / changes are recorded known findings (each with its region predicate, so anything outside the regions is still reported); two defects were repaired (get_zone_setpoint verb, _check_idx range test).",
         design="4/C03"),
 })
+CLAIMED.update({
+    "C14": dict(
+        text="(a) pkt_lifespan + Message._expired run on one logged frame per I/RP verb/code (and on sync-cycle frames with all 65536 count-downs symbolic) with the gateway clock two solver reals e1 <= e2 on the same object: never raises, not expired before the lifetime, expired from 2x lifetime + 3 s, expiry never un-happens. (b) the real _MessageDB store/read functions on a minimal entity: two messages for the same attribute and context with symbolic values and unrelated traffic in between - the read equals the later message's value (dict and array forms), and past twice the lifetime reads unknown.",
+        note="Trusted: z3 (linear real arithmetic over the clock), symx, the SymInstant/SymTimeDelta stand-ins for datetime arithmetic. The lifetime table itself is taken from the code (the property fixes only the 1x/2x+3 s thresholds). Routing of packets to zone/DHW entities is outside. The stale first read after expiry is a recorded known finding; the zero-countdown division and the -1.0 sentinel collision were repaired.",
+        design="4/C14"),
+})
 NOT_APPLICABLE = {
     "C12": "whole-gateway discovery against a scripted controller over simulated hours: the quantified space is a discrete configuration/loss pattern and the entity layer (voluptuous schemas, pollers, entity graph) is outside the symbolically executable subset; decode kernels it rests on are covered under C05",
     "C15": "schema validity/consistency over packet histories: validators are voluptuous (third-party, callable/regex based, not instrumented) and the rules live in the entity graph; no symbolic dimension is encodable within reach",
